@@ -6,7 +6,9 @@ CONSTANTS
  MaxNow = 100
  MaxGen = 1
  TtlSets <- TS_full
+ Evicts = FALSE
+ MaxObj = 0
 CONSTRAINT HighWater
-INVARIANTS EntryFresh Fresh NoCachedFailure MutualExclusion
+INVARIANTS EntryFresh Fresh NoCachedFailure MutualExclusion LockHeld KeyOK ServedFromCache
 POSTCONDITION TraceAccepted
 CHECK_DEADLOCK FALSE
